@@ -84,7 +84,12 @@ impl Out {
             self.oracle.push(json!({"signature": signature, "what": what, "replay": replay}));
         }
     }
-    pub fn finish(self, rule: &str) {
+    pub fn finish(mut self, rule: &str) {
+        // a failure of the value mirror (serialised shape of a replicated value changed) is a named case
+        for (what, js) in crate::enc::take_mirror_errors() {
+            let prop = crate::PROP.get().cloned().unwrap_or_else(|| "C??".into());
+            self.violation(&format!("{}:mirror:shape-changed", prop), &format!("the serialised shape of a replicated value is not the one this harness knows ({}): files / peers written by the previous code cannot be read back the same way", what), json!({"where": what, "json": js}));
+        }
         let mut f = fs::File::create(self.dir.join("ops.txt")).unwrap();
         for l in &self.ops {
             writeln!(f, "{}", l).unwrap();
